@@ -282,15 +282,22 @@ def rule_formats(ck):
     ex = Expander(P, g)
     r = [x for x in returns(g) if x.value is not None]
     o = ck.ob('C15-D3.compose', g, r[0].value if r else 'return', r[0] if r else g.node)
-    if len(r) != 1:
-        o.unknown('%d returns' % len(r))
+    if not r:
+        o.fail('strptime_to_utc_epoch returns nothing')
         return
-    e = ex.expand(r[0].value)
-    good = isinstance(e, ast.Call) and call_name(e) == T + 'datetime_to_utc_epoch' and e.args and isinstance(e.args[0], ast.Call) \
-        and call_name(e.args[0]) == T + 'strptime_to_utc_datetime' and e.args[0].args and u(e.args[0].args[0]) == g.positional_params[0]
-    (o.ok('datetime_to_utc_epoch(strptime_to_utc_datetime(s, fmt))') if good else
-     o.fail('strptime_to_utc_epoch returns `%s`: it must compose the string parser with the exact datetime->epoch conversion so that '
-            'strings, datetimes and epochs agree to the millisecond' % u(e)[:100]))
+    # every way out is the composition: a second, hand-written reading of the string (a fast path that takes the digits of the
+    # fraction itself) is another parser with its own idea of '.5' or of a missing fraction
+    bad = None
+    for x in r:
+        e = ex.expand(x.value)
+        for alt in phi_alternatives(e):
+            good = isinstance(alt, ast.Call) and call_name(alt) == T + 'datetime_to_utc_epoch' and alt.args and isinstance(alt.args[0], ast.Call) \
+                and call_name(alt.args[0]) == T + 'strptime_to_utc_datetime' and alt.args[0].args and u(alt.args[0].args[0]) == g.positional_params[0]
+            if not good:
+                bad = alt
+    (o.ok('datetime_to_utc_epoch(strptime_to_utc_datetime(s, fmt)) on every return') if bad is None else
+     o.fail('strptime_to_utc_epoch returns `%s`: every return must compose the string parser with the exact datetime->epoch conversion so that '
+            'strings, datetimes and epochs agree to the millisecond' % u(bad)[:100]))
 
 
 CUM_DAYS = [0, 31, 59, 90, 120, 151, 181, 212, 243, 273, 304, 334, 365]
